@@ -89,6 +89,7 @@ type World struct {
 	clients *clientSet
 	adv    *adversary
 	ended  bool
+	auditFetch bool // post-run audits: block fetches are served from the registry (every block available)
 }
 
 type hooks struct {
